@@ -661,6 +661,7 @@ func main() {
 	prop := flag.String("prop", "", "C05, C09 or C18")
 	bound := flag.Int("preempt", -1, "preemption bound")
 	debugPrefix := flag.String("debugprefix", "", "comma separated choices: execute scenario 0 twice with this prefix and print steps")
+	replayPath := flag.String("replay", "", "re-execute the schedule recorded in this artefact")
 	free := flag.Int("free", 0, "run every scenario N times free-running (no scheduler): meant for a -race build, which sees unsynchronised accesses that cooperative hand-offs hide")
 	flag.Parse()
 	thorough := vcommon.Thorough()
@@ -695,6 +696,54 @@ func main() {
 		scs = []scenario{c18Scenario(0), c18Scenario(1)}
 	default:
 		fmt.Fprintln(os.Stderr, "concmc: -prop must be C05, C09, C14 or C18")
+		os.Exit(2)
+	}
+	if *replayPath != "" {
+		// re-execute one recorded schedule (no exploration): the same choices on a fresh instance of the scenario
+		raw, err := os.ReadFile(*replayPath)
+		if err != nil {
+			fmt.Fprintln(os.Stderr, err)
+			os.Exit(2)
+		}
+		var doc struct {
+			Property string `json:"property"`
+			Replay   struct {
+				Scenario string `json:"scenario"`
+				Choices  []int  `json:"choices"`
+			} `json:"replay"`
+		}
+		if err := json.Unmarshal(raw, &doc); err != nil {
+			fmt.Fprintln(os.Stderr, err)
+			os.Exit(2)
+		}
+		for _, sc := range scs {
+			if sc.name != doc.Replay.Scenario {
+				continue
+			}
+			b, check := sc.mk()
+			var res vsched.Result
+			diverged := func() (d any) {
+				defer func() { d = recover() }()
+				res = vsched.Execute(sc.names, b, doc.Replay.Choices, 4000, 20e9)
+				return nil
+			}()
+			if diverged != nil {
+				// the recorded choices name scheduling points that this tree does not have (the code between the
+				// recorded points differs): the interleaving cannot be re-executed here
+				_ = os.RemoveAll(c11Dir)
+				fmt.Printf("the recorded schedule does not apply to this tree (%v): not reproduced; run ./check %s for a fresh exploration\n", diverged, *prop)
+				os.Exit(0)
+			}
+			fmt.Printf("schedule %v\n", res.Trace)
+			_ = os.RemoveAll(c11Dir)
+			if o := check(res); o != nil {
+				fmt.Printf("VIOLATION property=%s replay=%s\n  fingerprint=conc:%s\n  %s\n", *prop, *replayPath, o.fp, o.what)
+				os.Exit(1)
+			}
+			fmt.Println("no violation on this tree")
+			os.Exit(0)
+		}
+		fmt.Fprintf(os.Stderr, "unknown scenario %q\n", doc.Replay.Scenario)
 		os.Exit(2)
 	}
 	if *debugPrefix != "" {
